@@ -108,7 +108,9 @@ func (s *Sim) validSuccessor(nd *chain.Node, blk *types.Block, members []string)
 	return ""
 }
 
-func sigOK(pk keypair.PublicKey, data, sig []byte) bool { return signature.Verify(pk, data, sig) == nil }
+func sigOK(pk keypair.PublicKey, data, sig []byte) bool {
+	return signature.Verify(pk, data, sig) == nil
+}
 
 // sealRaw sets bookkeepers and signatures explicitly (sigs may be over another hash).
 func sealRaw(blk *types.Block, keys []*account.Account, signers []*account.Account, over []byte) {
